@@ -281,7 +281,7 @@ pub fn handle_pexpire(storage: &Arc<StorageEngine>, db: usize, parts: &[RespFram
     
     let milliseconds = match &parts[2] {
         RespFrame::BulkString(Some(bytes)) => {
-            match String::from_utf8_lossy(bytes).parse::<u64>() {
+            match String::from_utf8_lossy(bytes).parse::<i64>() {
                 Ok(n) => n,
                 Err(_) => return Ok(RespFrame::error("ERR value is not an integer or out of range")),
             }
@@ -289,7 +289,13 @@ pub fn handle_pexpire(storage: &Arc<StorageEngine>, db: usize, parts: &[RespFram
         _ => return Ok(RespFrame::error("ERR invalid milliseconds format")),
     };
     
-    let result = storage.pexpire(db, key, milliseconds)?;
+    // Like EXPIRE: a deadline that is not in the future deletes the key
+    if milliseconds <= 0 {
+        let deleted = storage.delete(db, key)?;
+        return Ok(RespFrame::Integer(if deleted { 1 } else { 0 }));
+    }
+    
+    let result = storage.pexpire(db, key, milliseconds as u64)?;
     Ok(RespFrame::Integer(if result { 1 } else { 0 }))
 }
 
